@@ -42,6 +42,7 @@ struct Cfg
   double upper_bound;
   bool bounded;
   bool enforce;
+  bool other_img = false; // set_up() with ANOTHER image object of the same characteristics than the one given to reconstruct()
 };
 
 // documented in OSSPSReconstruction::set_up: threshold_min_to_small_positive_value(image, 10.E-6F)
@@ -71,10 +72,12 @@ decode(const json& c)
   k.N = c["subsets"].get<int>();
   k.start_subset = c["start_subset"].get<int>() % k.N;
   k.n_sub = c["iters"].get<int>() * k.N;
+  k.other_img = c.value("other_img", false);
   k.use_subsens = c["use_subsens"].get<bool>();
   k.prior.kind = c["prior"].get<int>();
   k.prior.kappa = c["kappa"].get<bool>();
   k.prior.kseed = c["dseed"].get<uint64_t>() ^ 0xabcdefULL;
+  k.prior.kzero = c.value("kzero", 0);
   k.prior.recompute = k.prior.kind == 1 && c.value("recompute", false); // recompute_penalty_term_in_denominator on
   k.alpha = float(c["alpha"].get<double>());
   k.gamma = float(c["gamma"].get<double>());
@@ -271,10 +274,21 @@ execute(OSSPSReconstruction<target_type>& recon, const Fixture& F, const Cfg& k,
   *setup_rejected = false;
   try
     {
-      if (recon.set_up(target) != Succeeded::yes)
+      // Reconstruction::reconstruct(target): "set_up() has to be called before" with an image of the same characteristics (check()); round 4:
+      // with k.other_img the two are DIFFERENT objects (set_up may change the values of its image - the initial positivity threshold -, so
+      // its values are copied to the image that is reconstructed).  Every file saved during the run must hold the iterate, not set_up's image.
+      shared_ptr<target_type> setup_image = target;
+      if (k.other_img)
+        setup_image.reset(target->clone());
+      if (recon.set_up(setup_image) != Succeeded::yes)
         {
           *setup_rejected = true;
           return "set_up returned Succeeded::no";
+        }
+      if (k.other_img)
+        {
+          std::copy(setup_image->begin_all(), setup_image->end_all(), target->begin_all());
+          stats().count("runs with set_up(image A) and reconstruct(image B)");
         }
     }
   catch (const stir_verif::AssertionFailure&)
@@ -803,6 +817,8 @@ check(const json& c_in)
     }
   if (k.prior.kind != 0 && k.prior.kappa)
     stats().cls("prior curvature with kappa computed by the harness's own formula");
+  if (k.prior.kind != 0 && k.prior.kappa && k.prior.kzero != 0)
+    stats().cls(k.prior.kzero == 1 ? "kappa exactly 0 in voxels no bin sees" : "kappa exactly 0 in voxels no bin sees and in others");
   stats().cls(k.N == 1 ? "N=1" : (k.N <= 4 ? "N=2-4" : "N>=5"));
   stats().cls(balanced(F.vg_per_subset) ? "balanced subsets" : "unbalanced subsets");
   stats().cls(cat("prior ", k.prior.kind == 0 ? "none" : (k.prior.kappa ? "quadratic with kappa" : "quadratic")));
@@ -881,8 +897,12 @@ gen(Src& s, int size)
   c["ub_rel"] = s.coin() ? 0. : s.pick(std::vector<double>{ 0.3, 0.7, 1.2 });
   c["prior"] = s.coin() ? 0 : 1;
   c["kappa"] = s.coin();
+  // exact zeros in kappa (where no bin sees the voxel / also elsewhere): then data term AND surrogate curvature of the denominator are 0 in a voxel
+  // and only the threshold keeps D strictly positive
+  c["kzero"] = s.pick(std::vector<int>{ 0, 0, 1, 2 });
   c["beta_exp"] = s.real(-2., 1.5);
   c["enforce"] = s.chance(1, 4);
+  c["other_img"] = s.chance(1, 3);
   // recompute_penalty_term_in_denominator on (property text): a quadratic prior whose surrogate curvature is reported to
   // depend on the argument (QuadraticPriorRecompute), half of the prior cases
   c["recompute"] = s.coin();
